@@ -60,7 +60,7 @@ def factor_case(rng, quick, cmd='gstrf', fams=None, nmax=None, pmodes=(0, 1, 2, 
     c['ord'] = rng.choice([0, 1, 2, 3])
     # tuning
     if tuning == 'small':
-        c['w'] = rng.choice([1, 1, 2, 2, 3, 3, 4, 5, 8, 9])
+        c['w'] = rng.choice([1, 1, 2, 2, 3, 3, 4, 5, 8, 9, 12, 16, 24])
         c['relax'] = rng.choice([1, 1, 2, 2, 3, 4, 6, 8])
         # a relaxed supernode larger than sp_ienv(3) is a separate input class (known finding, see cfg_cases)
         c['maxsup'] = max(c['relax'], rng.choice([2, 3, 4, 8, 8, 12, 24]))
@@ -76,6 +76,8 @@ def drv_extras(rng, c):
     c['stype'] = rng.choice(['nc', 'nc', 'nr'])
     if rng.random() < 0.3:
         c['ldpad'] = rng.choice([1, 3])
+    if rng.random() < 0.35:
+        c['rhs'] = rng.choice(['sparse', 'sparse', 'unit', 'headzero', 'tailzero'])      # exact zeros travel through the triangular solves
     return c
 
 def spread(rng, n, precs=PRECS, weights=(4, 2, 3, 2)):
@@ -304,6 +306,20 @@ def gen_c02(ctx):
         c = factor_case(rng, ctx.quick, 'gstrf')
         c['u'] = rng.choice([1.0, 1.0, 0.5, 0.1, 0.001, 0.0])
         items.append(({'variant': 'plain', 'prec': precs[i]}, c))
+    # wide panels over narrow supernodes (panel_size >= 12 so that the halving near the top still leaves >= 6 columns): updates
+    # inside a panel from a supernode that began in the previous panel, U segments starting in the middle of the panel
+    NW = 1500 if ctx.quick else 20000
+    pv = spread(rng, NW)
+    for i in range(NW):
+        n = rng.choice([20, 25, 30, 40, 60])
+        c = {'cmd': 'gstrf', 'fam': rng.choice(['skyline', 'skyline', 'skyline', 'band', 'dense']), 'n': n, 'seed': rng.randrange(1, 1 << 30), 'vals': 'generic', 'dom': rng.choice(['row', 'col']),
+             'ldens': rng.choice([1.0, 0.6, 0.3]), 'maxlen': rng.choice([4, 6, 9]), 'bl': 8, 'bu': rng.choice([4, 6]),
+             'np': rng.choice([1, 1, 2, 4]), 'ord': rng.choice([0, 0, 0, 1]), 'w': rng.choice([8, 12, 12, 16, 20, 24]), 'relax': rng.choice([1, 2, 4]),
+             'maxsup': rng.choice([4, 6, 7, 8, 10]), 'rowblk': rng.choice([2, 4, 200]), 'colblk': rng.choice([2, 4, 100]), 'u': rng.choice([1.0, 0.1, 0.0])}
+        if c['fam'] == 'dense': c['n'] = min(n, 40)
+        c['maxsup'] = max(c['maxsup'], c['relax'])
+        if c['np'] > 1: c['pmode'] = rng.choice([0, 1, 2]); c['pert'] = rng.randrange(1, 1 << 30)
+        items.append(({'variant': 'plain', 'prec': pv[i]}, c))
     # exhaustive small family: all structurally nonsingular 0/1 patterns x all forced row orders x P in {1,2}
     nmax = 3 if ctx.quick else 4
     k = 0
@@ -390,6 +406,9 @@ def gen_c04(ctx):
             drv_extras(rng, c)
         if rng.random() < 0.15 and c['n'] >= 3 and c['fam'] in ('rand', 'band', 'grid', 'arrow'):
             c['zerocol'] = rng.randrange(c['n']); c['expect_singular'] = 1
+        elif rng.random() < 0.15 and c['n'] >= 6 and c['fam'] in ('rand', 'band', 'grid', 'arrow', 'tree', 'forest', 'chain'):
+            # several exactly singular columns (in relaxed leaves and in regular panels, possibly met by the same worker)
+            c['zerocols'] = rng.choice([2, 3, 4, 6]); c['expect_singular'] = 1
         c['watch'] = 1
         items.append(({'variant': 'plain', 'prec': pv[i]}, c))
     # many sibling panels that finish at the same moment under one parent, queue empty: lost wake-ups show here
@@ -618,7 +637,7 @@ def gen_c07(ctx):
     pv = spread(rng, N, weights=(3, 2, 3, 2))
     return [({'variant': 'plain', 'prec': pv[i]}, gssvx_case(rng, pv[i], ctx.quick)) for i in range(N)]
 
-PROPS['C07'] = dict(gen=gen_c07, relevant=('C07|', 'C11|B-', 'C11|A-', 'C02|reconstruction'), counters=X_COUNTERS, nontrivial=nontrivial_x, batch=25, coverage_extra=cov_equed,
+PROPS['C07'] = dict(gen=gen_c07, relevant=('C07|', 'C11|B-', 'C11|A-', 'C11|equed', 'C02|reconstruction'), counters=X_COUNTERS, nontrivial=nontrivial_x, batch=25, coverage_extra=cov_equed,
                     rule='expert-driver calls over trans x storage x {DOFACT, EQUILIBRATE, then FACTORED with a new B and another trans} x badly scaled inputs (powers of two) '
                     'x 4 precisions x nrhs x nprocs; matrices: sparse families and dense matrices with prescribed singular values; distinct = sha1(case); non-trivial = n>=3 and a solution was returned; '
                     'oracle: extended-precision componentwise backward error of the returned X for the ORIGINAL system <= 4(n+1)u whenever kappa*growth*n*u <= 1e-3 (kappa from an explicit extended-precision inverse) '
@@ -634,7 +653,9 @@ def gen_c12(ctx):
     out = []
     for i in range(N):
         c = gssvx_case(rng, pv[i], ctx.quick, kind='svd' if rng.random() < 0.75 else 'mixed')
-        c['u'] = rng.choice([1.0, 0.5, 0.1]); c['nrhs'] = rng.choice([0, 1]); c.pop('factored', None)
+        c['u'] = rng.choice([1.0, 0.5, 0.1]); c['nrhs'] = rng.choice([0, 1, 1])
+        if c['nrhs'] == 0: c.pop('factored', None)
+        elif rng.random() < 0.5: c['factored'] = 1; c.setdefault('trans2', rng.choice([0, 1, 2]))      # rcond and pivot growth are outputs of a FACTORED call too
         out.append(({'variant': 'plain', 'prec': pv[i]}, c))
     return out
 
@@ -642,7 +663,7 @@ PROPS['C12'] = dict(gen=gen_c12, relevant=('C12|',), counters=X_COUNTERS, nontri
                     rule='expert driver on matrices with prescribed condition number up to 1e-3/eps (geometric / one-small / one-large singular value profiles) and sparse families, both norms (all trans x storage), '
                     'thresholds u in {1,0.5,0.1}, 4 precisions, 1..4 threads; distinct = sha1(case); non-trivial = the rcond bounds were actually judged (kappa*n*u <= 1e-3); '
                     'oracle: explicit extended-precision inverse; 1/kappa <= rcond <= 1/(||A||*||inv(A)e/n||) up to delta = min(0.5, 8 n u kappa growth); info = n+1 iff rcond < eps; '
-                    'reciprocal pivot growth recomputed from the returned factors within 8 ulp',
+                    'reciprocal pivot growth recomputed from the returned factors within 8 ulp; both also for calls that re-use the factors (fact = FACTORED, output scalars poisoned before the call)',
                     floors={'rcond_judged': 400})
 
 def gen_c13(ctx):
@@ -764,6 +785,7 @@ def gen_c19(ctx):
             c['n'] = max(n, 3)
             if c['fam'] == 'rand': c['dens'] = round(min(1.0, 4.0 / c['n']), 4)
             c['np'] = rng.choice([1, 2, 4]); c['ord'] = rng.choice([0, 1, 2, 3])
+            if rng.random() < 0.5: c['xzero'] = rng.choice([1, 1, 2, 4, 5])
             c['w'] = rng.choice([1, 2, 4, 8]); c['relax'] = rng.choice([1, 2, 4]); c['maxsup'] = max(c['relax'], rng.choice([4, 8, 24]))
             c['rowblk'] = rng.choice([2, 200]); c['colblk'] = rng.choice([2, 100])
             if c['np'] > 1: c['pmode'] = 1; c['pert'] = rng.randrange(1, 1 << 30)
@@ -845,6 +867,11 @@ def gen_c10(ctx):
             c['sub'] = 'permc'; c['m'] = max(1, n + rng.choice([-3, -1, 2, 7])); c['ord'] = rng.choice([0, 1, 3]); c['transversal'] = 0; c['fam'] = 'rand'; c['dens'] = 0.2
             for k2 in ('emptycol', 'emptyrow', 'denserow', 'densecol'): c.pop(k2, None)
         out.append(({'variant': 'asan' if i % 5 == 0 else 'plain', 'prec': rng.choice(['d', 's'])}, c))
+    # deep elimination trees (chains of 10^5 .. 4*10^6 columns) under the default 8 MB stack: recursion depth, index width
+    for n in ([100000, 1000000, 2000000, 4000000] if ctx.quick else [100000, 400000, 1000000, 1500000, 2000000, 3000000, 4000000, 6000000]):
+        for chains in (1, 2, 3):
+            for symm in (0, 1):
+                out.append(({'variant': 'plain', 'prec': 'd', 'per_process': True, 'timeout_scale': 6.0, 'dump': False}, {'cmd': 'order', 'sub': 'deep', 'n': n, 'chains': chains, 'symm': symm, 'seed': 1}))
     return out
 
 PROPS['C10'] = dict(timeout_case=20.0, gen=gen_c10, relevant=('C10|',), counters=('nnz', 'n'), batch=40,
